@@ -162,6 +162,28 @@ def iv(init):
     return None if init is None else init.copy()
 
 
+def sim(be, *a, **kw):
+    """be.simulate(...).  Exceptions that surface from third-party code called by Tangelo (cirq, numpy) are attributed
+    to the Tangelo frame that made the call; exceptions raised by Tangelo itself pass through unchanged.  (vlib.runner does this itself except when the
+    innermost frame has a relative file name, e.g. 'numpy/random/mtrand.pyx', which it mistakes for harness code.)"""
+    import os, traceback
+    from vlib import runner
+    try:
+        return be.simulate(*a, **kw)
+    except Exception as e:
+        tb = traceback.extract_tb(e.__traceback__)
+        last = [f for f in tb if os.path.isabs(f.filename)][-1]
+        if os.path.realpath(last.filename).startswith(runner.REPO + os.sep):
+            raise          # raised by Tangelo itself: callers decide (documented refusals) or the runner classifies it
+        for f in reversed(tb):
+            fn = os.path.realpath(f.filename) if os.path.isabs(f.filename) else ""
+            if fn.startswith(runner.REPO + os.sep):
+                raise Fail(f"unexpected {type(e).__name__} below Tangelo: {e}",
+                           sig=f"exception:{type(e).__name__}@{os.path.relpath(fn, runner.REPO)}:{f.name}",
+                           traceback=traceback.format_exc()[-1500:])
+        raise
+
+
 def get_cirq(n_shots=None):
     from tangelo.linq import get_backend
     be = get_backend("cirq", n_shots=n_shots)
@@ -176,7 +198,7 @@ def expect_zero_prob_error(case, n, init, b, n_meas_fixed, sig):
     be = get_cirq()
     want = pad(b, n_meas_fixed) if n_meas_fixed is not None else b
     try:
-        be.simulate(circ, desired_meas_result=want, return_statevector=True, initial_statevector=iv(init))
+        sim(be, circ, desired_meas_result=want, return_statevector=True, initial_statevector=iv(init))
     except ValueError as e:
         if "zero" not in str(e):
             raise
@@ -253,7 +275,7 @@ def meas_exact(ctx):
         for l in alive:
             b = l["b"]
             try:
-                f, sv = be.simulate(circ, desired_meas_result=b, return_statevector=case["rsv"], initial_statevector=iv(init),
+                f, sv = sim(be, circ, desired_meas_result=b, return_statevector=case["rsv"], initial_statevector=iv(init),
                                     save_mid_circuit_meas=case["save"])
             except ValueError as e:
                 raise Fail(f"outcome string {b!r} has probability {l['p']} but was refused: {e}", sig="meas_exact:alive-branch-refused")
@@ -347,11 +369,11 @@ def meas_sampled(ctx):
                 lab.add("desired-fallback-save")
         ctx.np_seed(case)
         if mode == "dm":
-            f, _ = be.simulate(circ, initial_statevector=iv(init))
+            f, _ = sim(be, circ, initial_statevector=iv(init))
             check_counts(f, N, n, "meas_sampled:dm", "unconditioned run")
             check_sampled(f, ref_final, N, p_fin, "meas_sampled:dm", "unconditioned run (density-matrix path)")
         elif mode == "save":
-            f, sv = be.simulate(circ, initial_statevector=iv(init), save_mid_circuit_meas=True)
+            f, sv = sim(be, circ, initial_statevector=iv(init), save_mid_circuit_meas=True)
             if sv is not None:
                 raise Fail("statevector returned although not requested", sig="meas_sampled:rsv")
             allf, mid = be.all_frequencies, be.mid_circuit_meas_freqs
@@ -371,7 +393,7 @@ def meas_sampled(ctx):
         elif mode == "desired":
             l = cand[case["pick"] % len(cand)]
             b = l["b"]
-            f, sv = be.simulate(circ, desired_meas_result=b, return_statevector=case["rsv"], initial_statevector=iv(init))
+            f, sv = sim(be, circ, desired_meas_result=b, return_statevector=case["rsv"], initial_statevector=iv(init))
             if case["rsv"]:
                 sv = np.asarray(sv).reshape(-1)
                 if sv.shape != l["psi"].shape or np.max(np.abs(sv - l["psi"])) > 1e-8:
@@ -404,7 +426,7 @@ def meas_sampled(ctx):
                 check_sampled(f, pb, K, lambda k: None, "meas_sampled:desired", f"conditioned histogram on {b!r}")
             lab.add("desired-p<0.2" if l["p"] < 0.2 else "desired-p>=0.2")
         else:   # one shot, statevector of that shot
-            f, sv = be.simulate(circ, initial_statevector=iv(init), save_mid_circuit_meas=True, return_statevector=True)
+            f, sv = sim(be, circ, initial_statevector=iv(init), save_mid_circuit_meas=True, return_statevector=True)
             mid = be.mid_circuit_meas_freqs
             check_counts(mid, 1, n_meas, "meas_sampled:one:mid", "mid_circuit_meas_freqs")
             check_counts(f, 1, n, "meas_sampled:one:final", "returned frequencies")
@@ -463,7 +485,7 @@ def cmeas_exact(ctx):
             check_trace(generate_applied_gates(circ, desired_meas_result=b), l, "cmeas:generate_applied_gates", "generate_applied_gates")
             nlog = len(ctrl_obj.log) if is_cls else 0
             try:
-                f, sv = be.simulate(circ, desired_meas_result=b, return_statevector=case["rsv"], initial_statevector=iv(init),
+                f, sv = sim(be, circ, desired_meas_result=b, return_statevector=case["rsv"], initial_statevector=iv(init),
                                     save_mid_circuit_meas=case["save"])
             except ValueError as e:
                 raise Fail(f"outcome string {b!r} has probability {l['p']} but was refused: {e}", sig="cmeas_exact:alive-branch-refused")
@@ -590,7 +612,7 @@ def cmeas_sampled(ctx):
             b = l["b"]
             ctx.np_seed(case)
             try:
-                f, sv = be.simulate(circ, desired_meas_result=b, return_statevector=case["rsv"], initial_statevector=iv(init))
+                f, sv = sim(be, circ, desired_meas_result=b, return_statevector=case["rsv"], initial_statevector=iv(init))
             except ValueError as e:
                 raise Fail(f"outcome string {b!r} has probability {l['p']} but was refused: {e}", sig="cmeas_sampled:alive-branch-refused")
             check_trace(circ.applied_gates, l, "cmeas_sampled:applied_gates", "applied_gates")
@@ -611,7 +633,7 @@ def cmeas_sampled(ctx):
             return any(x["nontrivial"] for x in leaves), case_labels(case, leaves, n) | lab
 
         ctx.np_seed(case)
-        f, sv = be.simulate(circ, initial_statevector=iv(init), return_statevector=(mode == "one"))
+        f, sv = sim(be, circ, initial_statevector=iv(init), return_statevector=(mode == "one"))
         allf, mid = be.all_frequencies, be.mid_circuit_meas_freqs
         check_counts(allf, N, None, "cmeas_sampled:all", "all_frequencies")
         check_counts(mid, N, None, "cmeas_sampled:mid", "mid_circuit_meas_freqs")
